@@ -66,16 +66,23 @@ Lemma rounds_tr_input : forall h t, t_rounds (tr_input h t) = t_rounds t. Proof.
 Lemma rounds_tr_round : forall c t, t_rounds (tr_round c t) = c :: t_rounds t. Proof. reflexivity. Qed.
 Lemma out_tr_input : forall h t, t_out (tr_input h t) = t_out t. Proof. reflexivity. Qed.
 Lemma out_tr_round : forall c t, t_out (tr_round c t) = t_out t. Proof. reflexivity. Qed.
+Lemma inputs_tr_emit : forall ms t, t_inputs (tr_emit ms t) = t_inputs t. Proof. reflexivity. Qed.
+Lemma rounds_tr_emit : forall ms t, t_rounds (tr_emit ms t) = t_rounds t. Proof. reflexivity. Qed.
+Lemma out_tr_emit : forall ms t, t_out (tr_emit ms t) = t_out t. Proof. reflexivity. Qed.
+Lemma emits_tr_emit : forall ms t, t_emits (tr_emit ms t) = (ms ++ t_emits t)%list. Proof. reflexivity. Qed.
+Lemma emits_tr_input : forall h t, t_emits (tr_input h t) = t_emits t. Proof. reflexivity. Qed.
+Lemma emits_tr_round : forall c t, t_emits (tr_round c t) = t_emits t. Proof. reflexivity. Qed.
 
 Section ReactProofs.
   Variable tn : list call -> res (list tmsg).
   Variable rd : string -> bool.
   Variable rd_nonempty : bool.
   Variable modifier : list msg -> list msg.
+  Variable visible : call -> bool.
 
-  Notation react_spec := (react_spec tn rd rd_nonempty modifier).
-  Notation agent_loop := (agent_loop tn rd rd_nonempty modifier).
-  Notation agent_run := (agent_run tn rd rd_nonempty modifier).
+  Notation react_spec := (react_spec tn rd rd_nonempty modifier visible).
+  Notation agent_loop := (agent_loop tn rd rd_nonempty modifier visible).
+  Notation agent_run := (agent_run tn rd rd_nonempty modifier visible).
 
   Definition rd_id_of (calls : list call) : string :=
     if rd_nonempty then rd_call_id rd calls else "".
@@ -92,10 +99,12 @@ Section ReactProofs.
     calls <> [] ->
     react_spec (SMsg content calls chunks :: script) (S (S b2)) hist =
     tr_input (modifier hist)
+      (tr_emit [assistant content calls]
       (tr_round calls
          match tn calls with
          | Ok results =>
-             if String.eqb (rd_id_of calls) "" then
+             tr_emit (emitted_results visible calls results)
+             (if String.eqb (rd_id_of calls) "" then
                react_spec script b2 (hist ++ assistant content calls :: map tool_msg results)
              else
                match b2 with
@@ -105,14 +114,15 @@ Section ReactProofs.
                    | Some r => tr_final (tool_msg r)
                    | None => tr_fail ENoDirect
                    end
-               end
+               end)
          | r => tr_fail (tools_err r)
-         end).
+         end)).
   Proof. intros. destruct calls; [congruence|]. reflexivity. Qed.
 
   Lemma spec_unfold_calls_1 : forall content calls chunks script hist,
     calls <> [] ->
-    react_spec (SMsg content calls chunks :: script) 1 hist = tr_input (modifier hist) (tr_fail EStepLimit).
+    react_spec (SMsg content calls chunks :: script) 1 hist
+    = tr_input (modifier hist) (tr_emit [assistant content calls] (tr_fail EStepLimit)).
   Proof. intros. destruct calls; [congruence|]. reflexivity. Qed.
 
   Lemma steps_needed_calls : forall content calls chunks rest,
@@ -143,7 +153,7 @@ Section ReactProofs.
     - inversion HF as [|? ? Hs HF']; subst.
       destruct fuel as [|b1]; [reflexivity|]. simpl.
       destruct s as [|content calls chunks]; [reflexivity|].
-      destruct Hs as [Hd Hc]. rewrite Hd, Hc. f_equal.
+      destruct Hs as [Hd Hc]. rewrite Hd, Hc. f_equal. f_equal.
       destruct calls as [|c0 calls']; [reflexivity|].
       remember (c0 :: calls') as calls. assert (Hne : nonempty calls = true) by (subst; reflexivity).
       rewrite Hne. replace (match calls with [] => tr_final (assistant content []) | _ :: _ => _ end)
@@ -153,7 +163,8 @@ Section ReactProofs.
                   tr_round calls
                     match tn calls with
                     | Ok results =>
-                        let id := if rd_nonempty then rd_call_id rd calls else "" in
+                        tr_emit (emitted_results visible calls results)
+                        (let id := if rd_nonempty then rd_call_id rd calls else "" in
                         if String.eqb id "" then
                           react_spec script b2 ((h0 ++ input) ++ assistant content calls :: map tool_msg results)
                         else
@@ -164,12 +175,12 @@ Section ReactProofs.
                               | Some r => tr_final (tool_msg r)
                               | None => tr_fail ENoDirect
                               end
-                          end
+                          end)
                     | r => tr_fail (tools_err r)
                     end
               end) by (subst; reflexivity).
       destruct b1 as [|b2]; [reflexivity|]. simpl. f_equal.
-      destruct (tn calls) as [results| |]; try reflexivity.
+      destruct (tn calls) as [results| |]; try reflexivity. f_equal.
       destruct rd_nonempty.
       + destruct (String.eqb (rd_call_id rd calls) "") eqn:E.
         * rewrite (IH HF'). rewrite <- app_assoc. reflexivity.
@@ -267,9 +278,9 @@ Section ReactProofs.
         destruct calls as [|c0 calls']; [destruct k'; discriminate|].
         remember (c0 :: calls') as calls.
         destruct b1 as [|b2]; [destruct k'; discriminate|].
-        rewrite inputs_tr_round in H. simpl.
+        rewrite inputs_tr_emit, inputs_tr_round in H. simpl.
         destruct (tn calls) as [results| |]; try (destruct k'; discriminate).
-        simpl in H. destruct (String.eqb (if rd_nonempty then rd_call_id rd calls else "") "").
+        rewrite inputs_tr_emit in H. simpl in H. destruct (String.eqb (if rd_nonempty then rd_call_id rd calls else "") "").
         * apply (IH _ _ _ _ H).
         * destruct b2; [destruct k'; discriminate|].
           destruct (find_tcid _ results); destruct k'; discriminate.
@@ -299,9 +310,9 @@ Section ReactProofs.
       + simpl in H. inversion H. constructor.
       + remember (c0 :: calls') as calls. assert (Hne : calls <> []) by (subst; discriminate).
         destruct b1 as [|b2]; [discriminate|].
-        rewrite out_tr_round in H.
+        rewrite out_tr_emit, out_tr_round in H.
         destruct (tn calls) as [results| |] eqn:Et; try discriminate.
-        fold (rd_id_of calls) in H.
+        rewrite out_tr_emit in H. fold (rd_id_of calls) in H.
         destruct (String.eqb (rd_id_of calls) "") eqn:E.
         * apply String.eqb_eq in E. eapply ans_later; eauto.
         * apply String.eqb_neq in E. destruct b2; [discriminate|].
@@ -317,12 +328,12 @@ Section ReactProofs.
     - destruct budget; simpl in *; [lia|reflexivity].
     - assert (E : String.eqb (rd_id_of calls) "" = false) by (apply String.eqb_neq; auto).
       rewrite steps_needed_calls, E in Hb by auto. destruct budget as [|[|[|b]]]; try lia.
-      rewrite spec_unfold_calls by auto. rewrite out_tr_input, out_tr_round.
-      rewrite H0, E, H2. reflexivity.
+      rewrite spec_unfold_calls by auto. rewrite out_tr_input, out_tr_emit, out_tr_round.
+      rewrite H0, out_tr_emit, E, H2. reflexivity.
     - assert (E : String.eqb (rd_id_of calls) "" = true) by (apply String.eqb_eq; auto).
       rewrite steps_needed_calls, E in Hb by auto. destruct budget as [|[|b]]; try lia.
-      rewrite spec_unfold_calls by auto. rewrite out_tr_input, out_tr_round.
-      rewrite H0, E. apply IHanswers. lia.
+      rewrite spec_unfold_calls by auto. rewrite out_tr_input, out_tr_emit, out_tr_round.
+      rewrite H0, out_tr_emit, E. apply IHanswers. lia.
   Qed.
 
   (* never more node executions than the step limit *)
@@ -341,7 +352,8 @@ Section ReactProofs.
       remember (c0 :: calls') as calls. assert (Hne : calls <> []) by (subst; discriminate).
       destruct b1 as [|b2]; [rewrite spec_unfold_calls_1 by auto; simpl; lia|].
       rewrite spec_unfold_calls by auto.
-      rewrite inputs_tr_input, rounds_tr_input, out_tr_input, inputs_tr_round, rounds_tr_round, out_tr_round.
+      rewrite inputs_tr_input, rounds_tr_input, out_tr_input, inputs_tr_emit, rounds_tr_emit, out_tr_emit,
+        inputs_tr_round, rounds_tr_round, out_tr_round.
       destruct (tn calls) as [results| |]; simpl; try lia.
       destruct (String.eqb (rd_id_of calls) "").
       + specialize (IH b2 (hist ++ assistant content calls :: map tool_msg results)%list). lia.
@@ -365,8 +377,8 @@ Section ReactProofs.
       destruct s as [|content calls chunks]; [destruct Hs|].
       destruct Hs as [Hne [[results Ht] Hr]].
       destruct b1 as [|b2]; [rewrite spec_unfold_calls_1 by auto; reflexivity|].
-      rewrite spec_unfold_calls by auto. rewrite out_tr_input, out_tr_round.
-      rewrite Ht, Hr. simpl. apply IH; auto. simpl in Hb. lia.
+      rewrite spec_unfold_calls by auto. rewrite out_tr_input, out_tr_emit, out_tr_round.
+      rewrite Ht, out_tr_emit, Hr. simpl. apply IH; auto. simpl in Hb. lia.
   Qed.
 
   (* ---- the corollaries for the agent itself ---- *)
@@ -410,7 +422,7 @@ Definition w_tn (calls : list call) : res (list tmsg) :=
   Ok (map (fun c => (c_name c ++ "(" ++ c_args c ++ ")", c_id c)) calls).
 Definition w_input : list msg := [mkMsg RUser "what is 6*7?" [] ""].
 Definition w_run (checker : list chunk -> bool) (md : mode) : trace :=
-  agent_run w_tn (fun _ => false) false (fun h => h) checker md 12 w_script w_input.
+  agent_run w_tn (fun _ => false) false (fun h => h) (fun _ => true) checker md 12 w_script w_input.
 
 Lemma witness_refutes_default :
   Forall chunking_valid w_script
